@@ -70,7 +70,7 @@ static KSI_Rule *parse_list(void) {
 		if (n >= 63) { fprintf(stderr, "list too long\n"); exit(2); }
 	}
 	tmp[n].type = KSI_RULE_TYPE_BASIC; tmp[n].rule = NULL; n++;
-	KSI_Rule *r = H_MALLOC(sizeof(KSI_Rule) * n);
+	KSI_Rule *r = malloc(sizeof(KSI_Rule) * n);
 	memcpy(r, tmp, sizeof(KSI_Rule) * n);
 	arena[narena++] = r;
 	return r;
